@@ -496,6 +496,10 @@ func crossGenFiles() map[string]string {
 		// an exec directive in a host that already mentions the target's executable literally (reads it)
 		"zz-vgen-hist-optexec": pre("zz-vgen-hist-optexec", "@{exec_path} = /opt/vgen/optexec /opt/vgen/optexec-helper\n", "@{exec_path} ", "  /etc/hist r,\n"),
 		"ee-vgen-hist-execlit": mk("ee-vgen-hist-execlit", "  /opt/vgen/optexec-helper r,\n  owner @{HOME}/.local/opt/vgen/optexec rw,\n\n  #aa:exec zz-vgen-hist-optexec\n"),
+		// one exec directive naming two profiles that share an executable
+		"zz-vgen-hist-sharea":   pre("zz-vgen-hist-sharea", "@{exec_path} = /opt/vgen/shared /opt/vgen/only-a\n", "@{exec_path} ", "  /etc/hist r,\n"),
+		"zz-vgen-hist-shareb":   pre("zz-vgen-hist-shareb", "@{exec_path} = /opt/vgen/shared /opt/vgen/only-b\n", "@{exec_path} ", "  /etc/hist r,\n"),
+		"ff-vgen-hist-execshare": mk("ff-vgen-hist-execshare", "  /etc/host7 r,\n\n  #aa:exec zz-vgen-hist-sharea zz-vgen-hist-shareb\n"),
 		// exec directives: default, explicit and two-target forms over the same targets
 		"aa-vgen-hist-exec1": mk("aa-vgen-hist-exec1", "  #aa:exec zz-vgen-hist-uselib\n"),
 		"bb-vgen-hist-exec2": mk("bb-vgen-hist-exec2", "  #aa:exec U zz-vgen-hist-uselib\n\n  /etc/between r,\n"),
